@@ -12,6 +12,7 @@
 -/
 import VfsModel.Proofs.MemRun
 import VfsModel.Proofs.PhysPath
+import VfsModel.Props.C06
 namespace Vfs
 
 /-! ### 1. generic: the existence probe comes first -/
@@ -320,7 +321,7 @@ theorem createDirAllLoop_chain (m : FMap) (hm : WF m) (cs : List Str) :
       obtain ⟨pe, hpe, hpd⟩ := hmade.parent_dir
       refine ⟨hmade.wf.insert_dir _ _ rfl hs pe (by rw [hpar]; exact hpe) hpd, ?_, ?_, ?_, ?_⟩
       · intro q hq
-        rw [List.mem_append, List.mem_singleton] at hq
+        rw [chain_snoc, List.mem_append, List.mem_singleton] at hq
         rw [FMap.find?_insert]
         split
         · exact ⟨_, rfl, rfl⟩
@@ -333,11 +334,11 @@ theorem createDirAllLoop_chain (m : FMap) (hm : WF m) (cs : List Str) :
         · rename_i hkd; rw [hkd, hf] at hk; cases hk
         · exact hmade.keeps k e hk
       · intro k hk
-        rw [List.mem_append, List.mem_singleton, not_or] at hk
+        rw [chain_snoc, List.mem_append, List.mem_singleton, not_or] at hk
         rw [FMap.find?_insert, if_neg hk.2]
         exact hmade.frame k hk.1
       · intro q hq hqn
-        rw [List.mem_append, List.mem_singleton] at hq
+        rw [chain_snoc, List.mem_append, List.mem_singleton] at hq
         rw [FMap.find?_insert]
         split
         · rfl
@@ -352,15 +353,15 @@ theorem createDirAllLoop_chain (m : FMap) (hm : WF m) (cs : List Str) :
         ↓reduceIte, fail, true_and]
       refine ⟨hmade.wf, ?_, hmade.keeps, ?_, ?_⟩
       · intro q hq
-        rw [List.mem_append, List.mem_singleton] at hq
+        rw [chain_snoc, List.mem_append, List.mem_singleton] at hq
         rcases hq with hq | hq
         · exact hmade.dirs q hq
         · subst hq; exact ⟨e, hsame, hdir⟩
       · intro k hk
-        rw [List.mem_append, List.mem_singleton, not_or] at hk
+        rw [chain_snoc, List.mem_append, List.mem_singleton, not_or] at hk
         exact hmade.frame k hk.1
       · intro q hq hqn
-        rw [List.mem_append, List.mem_singleton] at hq
+        rw [chain_snoc, List.mem_append, List.mem_singleton] at hq
         rcases hq with hq | hq
         · exact hmade.fresh q hq hqn
         · subst hq; rw [hf] at hqn; cases hqn
@@ -405,5 +406,1399 @@ theorem createDirAllLoop_existing (m : FMap) (hm : WF m) (ds : List Str)
     have hnotfile : ¬ e.ftype = .file := by rw [hd]; decide
     simp only [Mem.createDirAllLoop, Mem.createDir_present m d e hs hcont he, hnotfile, ↓reduceIte, fail]
     exact ih (fun x hx => h x (by simp [hx]))
+
+/-! ### 3. copy_file / move_file: the generic read/write route on memory leaves -/
+
+theorem cursorWrite_nil (bs : Bytes) : cursorWrite [] 0 bs = bs := by
+  simp [cursorWrite, padTo]
+
+theorem MemLeafAt.set_ne {w : World} {i j : Nat} {m : FMap} (h : MemLeafAt w j m) (hij : i ≠ j)
+    (f : FMap) : MemLeafAt (w.setLeafFiles i f) j m := by
+  unfold MemLeafAt at *
+  rw [World.leaf?_setLeafFiles_ne w i j f hij]; exact h
+
+/-- `open_file` stamps the access time -/
+def touched (e : Entry) : Entry := { e with accessed := .now }
+
+/-- the entry a completed copy leaves at a fresh destination -/
+def copiedEntry (bs : Bytes) : Entry :=
+  { ftype := .file, content := bs, created := .now, modified := .now, accessed := .now }
+
+theorem Mem.openFile_file (m : FMap) (s : Str) (e : Entry) (hs : m.find? s = some e)
+    (hf : e.ftype = .file) :
+    Mem.openFile m s = (.ok { content := e.content, pos := 0 }, m.insert s (touched e)) := by
+  simp [Mem.openFile, Mem.setAccessed, hs, hf, touched]
+
+theorem ioCopyAndDrop_fresh (c : Bytes) (h : WHandle) (p : Str) :
+    VPath.ioCopyAndDrop { content := c, pos := 0 } h p = h.writeAllAndDrop c := by
+  funext w
+  simp [VPath.ioCopyAndDrop, WHandle.writeAllAndDrop, bind, M.bind, M.withPath, M.ret,
+    RHandle.readToEnd, Res.withPath]
+
+theorem run_copyFile_mem {w : World} {i : Nat} {m : FMap} (h : MemLeafAt w i m) (s d : Str) :
+    (leafFS i).copyFile s d w = (fail .notSupported, w) := by
+  show onLeaf i _ w = _
+  rw [run_onLeaf h]; simp [h.same]
+
+theorem run_moveFile_mem {w : World} {i : Nat} {m : FMap} (h : MemLeafAt w i m) (s d : Str) :
+    (leafFS i).moveFile s d w = (fail .notSupported, w) := by
+  show onLeaf i _ w = _
+  rw [run_onLeaf h]; simp [h.same]
+
+theorem run_moveDir_mem {w : World} {i : Nat} {m : FMap} (h : MemLeafAt w i m) (s d : Str) :
+    (leafFS i).moveDir s d w = (fail .notSupported, w) := by
+  show onLeaf i _ w = _
+  rw [run_onLeaf h]; simp [h.same]
+
+theorem run_pWrite' {w : World} {i : Nat} {m : FMap} (h : MemLeafAt w i m) (id : Nat) (p : Str) (bs : Bytes) :
+    M.bind (VPath.createFile { fs := leafFS i, fsId := id, path := p })
+        (fun hd => hd.writeAllAndDrop bs) w =
+      ((Mem.pWrite m p bs).1, w.setLeafFiles i (Mem.pWrite m p bs).2) :=
+  run_pWrite h id p bs
+
+/-- the read/write route of `copy_file` -/
+def VPath.copyGeneric (src dst : VPath) : M Unit := do
+  let r ← src.openFile
+  let h ← dst.createFile
+  VPath.ioCopyAndDrop r h src.path
+
+theorem copyFile_generic_route (src dst : VPath) (w : World)
+    (hex : dst.exists_ w = (.ok false, w))
+    (hfast : src.fsId = dst.fsId →
+      ∃ pth, src.fs.copyFile src.path dst.path w = (.err .notSupported pth, w)) :
+    src.copyFile dst w = M.withPath src.path (src.copyGeneric dst) w := by
+  unfold VPath.copyFile VPath.copyGeneric
+  by_cases hid : src.fsId = dst.fsId
+  · obtain ⟨pth, hp⟩ := hfast hid
+    simp [M.withPath, bind, M.bind, hex, hid, M.attempt, hp]
+  · simp [M.withPath, bind, M.bind, hex, hid, pure, M.pure, fail]
+
+
+/-- the generic route of `copy_file` between memory leaves (the same one or two different ones,
+whatever the `Arc` identities): open the source, then one write session on the destination -/
+theorem run_copyFile_generic {w : World} {i j : Nat} {ms md mj : FMap}
+    (hi : MemLeafAt w i ms) (hj : MemLeafAt w j md) (sid did : Nat) (s d : Str) (e : Entry)
+    (hs : ms.find? s = some e) (hf : e.ftype = .file) (hd : md.find? d = none)
+    (hj1 : MemLeafAt (w.setLeafFiles i (ms.insert s (touched e))) j mj) :
+    VPath.copyFile { fs := leafFS i, fsId := sid, path := s } { fs := leafFS j, fsId := did, path := d } w =
+      ((Mem.pWrite mj d e.content).1.withPath s,
+        (w.setLeafFiles i (ms.insert s (touched e))).setLeafFiles j (Mem.pWrite mj d e.content).2) := by
+  have hc : md.contains d = false := by simp [FMap.contains, hd]
+  rw [copyFile_generic_route _ _ w (by simp [VPath.exists_, run_exists hj, hc])
+    (fun _ => ⟨none, run_copyFile_mem hi s d⟩)]
+  unfold VPath.copyGeneric
+  simp only [bind, M.bind, M.withPath, VPath.openFile, run_openFile hi, Mem.openFile_file ms s e hs hf,
+    Res.withPath, ioCopyAndDrop_fresh]
+  have hw := run_pWrite' hj1 did d e.content
+  simp only [M.bind] at hw
+  rw [hw]
+
+/-! ### fresh destination: what one write session leaves -/
+
+/-- the destination is absent, its name has a parent part, and the parent is a directory -/
+structure FreshDest (m : FMap) (d : Str) : Prop where
+  absent : m.find? d = none
+  slash : '/' ∈ d
+  parent : ∃ pe, m.find? (parentInternal d) = some pe ∧ pe.ftype = .dir
+
+theorem FreshDest.parentOk {m : FMap} {d : Str} (h : FreshDest m d) : Mem.parentOk m d = true := by
+  obtain ⟨pe, hpe, hpd⟩ := h.parent
+  simp [Mem.parentOk, hpe, hpd]
+
+theorem FreshDest.createFile {m : FMap} {d : Str} (h : FreshDest m d) :
+    Mem.createFile m d = (.ok (), m.insert d fileEntryNow) := by
+  obtain ⟨pe, hpe, hpd⟩ := h.parent
+  simp [Mem.createFile, Mem.ensureHasParent, h.slash, FMap.contains, hpe, h.absent]
+
+theorem FreshDest.pWrite {m : FMap} {d : Str} (h : FreshDest m d) (c : Bytes) :
+    Mem.pWrite m d c = (.ok (), memPublish (m.insert d fileEntryNow) d c) := by
+  simp [Mem.pWrite, h.parentOk, h.createFile, cursorWrite_nil]
+
+theorem find?_publish_fresh (m : FMap) (d : Str) (c : Bytes) (k : Str) :
+    (memPublish (m.insert d fileEntryNow) d c).find? k =
+      if k = d then some (copiedEntry c) else m.find? k := by
+  unfold memPublish
+  simp only [FMap.find?_insert_self, FMap.find?_insert]
+  split
+  · rfl
+  · rfl
+
+/-- an insertion elsewhere keeps the destination fresh, provided it does not replace the parent
+directory by a file -/
+theorem FreshDest.insert_other {m : FMap} {d : Str} (h : FreshDest m d) (s : Str) (v : Entry)
+    (hsd : s ≠ d) (hkeep : ∀ e, m.find? s = some e → e.ftype = .dir → v.ftype = .dir) :
+    FreshDest (m.insert s v) d := by
+  refine ⟨by rw [FMap.find?_insert_ne _ _ _ _ (Ne.symm hsd)]; exact h.absent, h.slash, ?_⟩
+  obtain ⟨pe, hpe, hpd⟩ := h.parent
+  rw [FMap.find?_insert]
+  split
+  · rename_i hps
+    exact ⟨v, rfl, hkeep pe (by rw [← hps]; exact hpe) hpd⟩
+  · exact ⟨pe, hpe, hpd⟩
+
+/-! ### `copy_file` between memory leaves -/
+
+/-- What a successful `copy_file s → d` from leaf `i` (holding `ms`) to leaf `j` (holding `md`)
+leaves behind. ONE statement for `i = j` and `i ≠ j`: the destination leaf gains the file at `d`
+with the source bytes; the source entry keeps type and bytes, only its access time is stamped
+(`touched`); every other key of both leaves, and every other leaf, is unchanged. -/
+structure Copied (i j : Nat) (ms md : FMap) (s d : Str) (e : Entry) (w w' : World) : Prop where
+  others : ∀ l, l ≠ i → l ≠ j → w'.leaf? l = w.leaf? l
+  ghost : w'.log = w.log ∧ w'.fault = w.fault ∧ w'.fired = w.fired
+  leaves : ∃ ms' md', MemLeafAt w' i ms' ∧ MemLeafAt w' j md' ∧
+    (∀ k, md'.find? k = if k = d then some (copiedEntry e.content)
+                         else if i = j ∧ k = s then some (touched e) else md.find? k) ∧
+    (∀ k, ms'.find? k = if i = j ∧ k = d then some (copiedEntry e.content)
+                         else if k = s then some (touched e) else ms.find? k)
+  /-- well-formedness and key uniqueness are kept -/
+  inv : ∀ ms' md', MemLeafAt w' i ms' → MemLeafAt w' j md' →
+    (WF ms → WF md → WF ms' ∧ WF md') ∧
+    (FMap.NodupKeys ms → FMap.NodupKeys md → FMap.NodupKeys ms' ∧ FMap.NodupKeys md')
+
+theorem MemLeafAt.unique {w : World} {i : Nat} {a b : FMap} (ha : MemLeafAt w i a)
+    (hb : MemLeafAt w i b) : a = b := by
+  unfold MemLeafAt at ha hb
+  rw [ha] at hb; injection hb with hb; injection hb
+
+theorem copyFile_mem {w : World} {i j : Nat} {ms md : FMap}
+    (hi : MemLeafAt w i ms) (hj : MemLeafAt w j md) (sid did : Nat) (s d : Str) (e : Entry)
+    (hs : ms.find? s = some e) (hf : e.ftype = .file) (hd : FreshDest md d) :
+    ∃ w', VPath.copyFile { fs := leafFS i, fsId := sid, path := s }
+            { fs := leafFS j, fsId := did, path := d } w = (.ok (), w') ∧
+      Copied i j ms md s d e w w' := by
+  by_cases hij : i = j
+  · subst hij
+    have hmd : md = ms := by
+      unfold MemLeafAt at hi hj; rw [hi] at hj; injection hj with hj; injection hj with _ hj; exact hj.symm
+    subst hmd
+    have hsd : s ≠ d := by intro h; rw [h, hd.absent] at hs; cases hs
+    have hd1 : FreshDest (md.insert s (touched e)) d :=
+      hd.insert_other s _ hsd (fun e' he' hdir => by rw [hs] at he'; injection he' with he'; subst he'; rw [hf] at hdir; cases hdir)
+    refine ⟨(w.setLeafFiles i (md.insert s (touched e))).setLeafFiles i
+      (memPublish ((md.insert s (touched e)).insert d fileEntryNow) d e.content), ?_, ?_⟩
+    · rw [run_copyFile_generic hi hj sid did s d e hs hf hd.absent (hi.set _), hd1.pWrite]
+      rfl
+    · refine ⟨?_, ⟨rfl, rfl, rfl⟩, ⟨_, _, (hi.set _).set _, (hi.set _).set _, ?_, ?_⟩, ?_⟩
+      · intro l hl _
+        rw [World.leaf?_setLeafFiles_ne _ _ _ _ (Ne.symm hl), World.leaf?_setLeafFiles_ne _ _ _ _ (Ne.symm hl)]
+      · intro k
+        rw [find?_publish_fresh, FMap.find?_insert]
+        simp
+      · intro k
+        rw [find?_publish_fresh, FMap.find?_insert]
+        simp
+      · intro ms' md' hms' hmd'
+        have e1 := hms'.unique ((hi.set (md.insert s (touched e))).set _)
+        have e2 := hmd'.unique ((hi.set (md.insert s (touched e))).set _)
+        subst e1; subst e2
+        refine ⟨fun hwf _ => ?_, fun hnd _ => ?_⟩
+        · have h1 : WF (md.insert s (touched e)) := hwf.setTime s e _ hs rfl
+          have h2 := h1.pWrite d e.content
+          rw [hd1.pWrite] at h2
+          exact ⟨h2, h2⟩
+        · have h2 : FMap.NodupKeys (memPublish ((md.insert s (touched e)).insert d fileEntryNow) d e.content) :=
+            FMap.nodup_insert _ _ _ (FMap.nodup_insert _ _ _ (FMap.nodup_insert _ _ _ hnd))
+          exact ⟨h2, h2⟩
+  · have hd1 : MemLeafAt (w.setLeafFiles i (ms.insert s (touched e))) j md := hj.set_ne hij _
+    refine ⟨(w.setLeafFiles i (ms.insert s (touched e))).setLeafFiles j
+      (memPublish (md.insert d fileEntryNow) d e.content), ?_, ?_⟩
+    · rw [run_copyFile_generic hi hj sid did s d e hs hf hd.absent hd1, hd.pWrite]
+      rfl
+    · refine ⟨?_, ⟨rfl, rfl, rfl⟩, ⟨_, _, ((hi.set _).set_ne (Ne.symm hij) _), hd1.set _, ?_, ?_⟩, ?_⟩
+      · intro l hl hl'
+        rw [World.leaf?_setLeafFiles_ne _ _ _ _ (Ne.symm hl'), World.leaf?_setLeafFiles_ne _ _ _ _ (Ne.symm hl)]
+      · intro k
+        rw [find?_publish_fresh]
+        simp [hij]
+      · intro k
+        rw [FMap.find?_insert]
+        simp [hij]
+      · intro ms' md' hms' hmd'
+        have e1 := hms'.unique ((hi.set (ms.insert s (touched e))).set_ne (Ne.symm hij) _)
+        have e2 := hmd'.unique (hd1.set _)
+        subst e1; subst e2
+        refine ⟨fun hwfs hwfd => ⟨hwfs.setTime s e _ hs rfl, ?_⟩, fun hns hnd =>
+          ⟨FMap.nodup_insert _ _ _ hns, FMap.nodup_insert _ _ _ (FMap.nodup_insert _ _ _ hnd)⟩⟩
+        have h2 := hwfd.pWrite d e.content
+        rw [hd.pWrite] at h2
+        exact h2
+
+
+/-- the read/write route of `move_file` -/
+def VPath.moveTail (src : VPath) (r : RHandle) (h : WHandle) : M Unit := do
+  let bytes ← M.withPath src.path (M.ret r.readToEnd.1)
+  let (_, h') ← h.write bytes
+  let res ← M.attempt src.removeFile
+  h'.drop
+  M.ret res
+
+def VPath.moveGeneric (src dst : VPath) : M Unit := do
+  let r ← src.openFile
+  let h ← dst.createFile
+  src.moveTail r h
+
+theorem moveFile_generic_route (src dst : VPath) (w : World)
+    (hex : dst.exists_ w = (.ok false, w))
+    (hfast : src.fsId = dst.fsId →
+      ∃ pth, src.fs.moveFile src.path dst.path w = (.err .notSupported pth, w)) :
+    src.moveFile dst w = M.withPath src.path (src.moveGeneric dst) w := by
+  unfold VPath.moveFile VPath.moveGeneric VPath.moveTail
+  by_cases hid : src.fsId = dst.fsId
+  · obtain ⟨pth, hp⟩ := hfast hid
+    simp [M.withPath, bind, M.bind, hex, hid, M.attempt, hp]
+  · simp [M.withPath, bind, M.bind, hex, hid, pure, M.pure, fail]
+
+/-- `VfsPath::create_file` on a fresh destination of a memory leaf -/
+theorem run_vcreateFile_fresh {w : World} {j : Nat} {m : FMap} (h : MemLeafAt w j m) (id : Nat)
+    (d : Str) (hd : FreshDest m d) :
+    VPath.createFile { fs := leafFS j, fsId := id, path := d } w =
+      (.ok { leaf := j, key := d, kind := .memFile, buf := [], pos := 0 },
+        w.setLeafFiles j (m.insert d fileEntryNow)) := by
+  unfold VPath.createFile
+  simp only [bind, M.bind, run_getParent h, hd.parentOk, ↓reduceIte, M.withPath, run_createFile h,
+    hd.createFile, Res.map, Res.withPath]
+
+theorem Mem.removeFile_file (m : FMap) (s : Str) (e : Entry) (hs : m.find? s = some e)
+    (hf : e.ftype = .file) : Mem.removeFile m s = (.ok (), m.erase s) := by
+  simp [Mem.removeFile, hs, hf]
+
+/-- the tail of the generic `move_file` once the source is open and the destination created:
+write to the buffer, remove the source (leaf `i`), publish the buffer (leaf `j`) -/
+theorem run_moveTail {w : World} {i j : Nat} {mi mj : FMap} (sid : Nat) (s d : Str) (c : Bytes)
+    (e : Entry) (hi : MemLeafAt w i mi) (hs : mi.find? s = some e) (hf : e.ftype = .file)
+    (hj : MemLeafAt (w.setLeafFiles i (mi.erase s)) j mj) :
+    VPath.moveTail { fs := leafFS i, fsId := sid, path := s } { content := c, pos := 0 }
+        { leaf := j, key := d, kind := .memFile, buf := [], pos := 0 } w =
+      (.ok (), (w.setLeafFiles i (mi.erase s)).setLeafFiles j (memPublish mj d c)) := by
+  unfold MemLeafAt at hj
+  unfold VPath.moveTail
+  simp only [bind, M.bind, M.withPath, M.ret, RHandle.readToEnd, Res.withPath, WHandle.write,
+    M.attempt, VPath.removeFile, run_removeFile hi, Mem.removeFile_file mi s e hs hf,
+    WHandle.drop, WHandle.flush, hj, cursorWrite_nil, List.drop_zero, Bool.false_eq_true, ↓reduceIte]
+
+theorem find?_publish_of (m : FMap) (d : Str) (c : Bytes) (hd : m.find? d = some fileEntryNow)
+    (k : Str) :
+    (memPublish m d c).find? k = if k = d then some (copiedEntry c) else m.find? k := by
+  unfold memPublish
+  simp only [hd, FMap.find?_insert]
+  split <;> rfl
+
+/-- What a successful `move_file` leaves behind: as `Copied`, and the source key is gone. -/
+structure Moved (i j : Nat) (ms md : FMap) (s d : Str) (e : Entry) (w w' : World) : Prop where
+  others : ∀ l, l ≠ i → l ≠ j → w'.leaf? l = w.leaf? l
+  ghost : w'.log = w.log ∧ w'.fault = w.fault ∧ w'.fired = w.fired
+  leaves : ∃ ms' md', MemLeafAt w' i ms' ∧ MemLeafAt w' j md' ∧
+    (∀ k, md'.find? k = if k = d then some (copiedEntry e.content)
+                         else if i = j ∧ k = s then none else md.find? k) ∧
+    (∀ k, ms'.find? k = if k = s then none
+                         else if i = j ∧ k = d then some (copiedEntry e.content) else ms.find? k)
+
+theorem moveFile_mem {w : World} {i j : Nat} {ms md : FMap}
+    (hi : MemLeafAt w i ms) (hj : MemLeafAt w j md) (sid did : Nat) (s d : Str) (e : Entry)
+    (hs : ms.find? s = some e) (hf : e.ftype = .file) (hd : FreshDest md d) :
+    ∃ w', VPath.moveFile { fs := leafFS i, fsId := sid, path := s }
+            { fs := leafFS j, fsId := did, path := d } w = (.ok (), w') ∧
+      Moved i j ms md s d e w w' := by
+  have hc : md.contains d = false := by simp [FMap.contains, hd.absent]
+  rw [moveFile_generic_route _ _ w (by simp [VPath.exists_, run_exists hj, hc])
+    (fun _ => ⟨none, run_moveFile_mem hi s d⟩)]
+  unfold VPath.moveGeneric
+  have hi1 := hi.set (ms.insert s (touched e))
+  by_cases hij : i = j
+  · subst hij
+    have hmd : md = ms := by
+      unfold MemLeafAt at hi hj; rw [hi] at hj; injection hj with hj; injection hj with _ hj; exact hj.symm
+    subst hmd
+    have hsd : s ≠ d := by intro h; rw [h, hd.absent] at hs; cases hs
+    have hd1 : FreshDest (md.insert s (touched e)) d :=
+      hd.insert_other s _ hsd (fun e' he' hdir => by rw [hs] at he'; injection he' with he'; subst he'; rw [hf] at hdir; cases hdir)
+    have hi2 := hi1.set ((md.insert s (touched e)).insert d fileEntryNow)
+    have hs2 : ((md.insert s (touched e)).insert d fileEntryNow).find? s = some (touched e) := by
+      rw [FMap.find?_insert_ne _ _ _ _ hsd, FMap.find?_insert_self]
+    simp only [bind, M.bind, M.withPath, VPath.openFile, run_openFile hi, Mem.openFile_file md s e hs hf,
+      Res.withPath, run_vcreateFile_fresh hi1 did d hd1,
+      run_moveTail sid s d e.content (touched e) hi2 hs2 hf (hi2.set _)]
+    refine ⟨_, rfl, ?_, ⟨rfl, rfl, rfl⟩, _, _, (hi2.set _).set _, (hi2.set _).set _, ?_, ?_⟩
+    · intro l hl _
+      simp only [World.leaf?_setLeafFiles_ne _ _ _ _ (Ne.symm hl)]
+    · intro k
+      rw [find?_publish_of _ _ _ (by rw [FMap.find?_erase_ne _ _ _ (Ne.symm hsd), FMap.find?_insert_self]),
+        FMap.find?_erase, FMap.find?_insert, FMap.find?_insert]
+      by_cases hkd : k = d <;> by_cases hks : k = s <;> simp [hkd, hks]
+    · intro k
+      rw [find?_publish_of _ _ _ (by rw [FMap.find?_erase_ne _ _ _ (Ne.symm hsd), FMap.find?_insert_self]),
+        FMap.find?_erase, FMap.find?_insert, FMap.find?_insert]
+      by_cases hkd : k = d <;> by_cases hks : k = s <;> simp [hkd, hks, hsd, Ne.symm hsd]
+  · have hj1 : MemLeafAt (w.setLeafFiles i (ms.insert s (touched e))) j md := hj.set_ne hij _
+    have hi2 := hi1.set_ne (Ne.symm hij) (md.insert d fileEntryNow)
+    have hj2 := hj1.set (md.insert d fileEntryNow)
+    have hs2 : (ms.insert s (touched e)).find? s = some (touched e) := FMap.find?_insert_self _ _ _
+    have hj3 := hj2.set_ne hij ((ms.insert s (touched e)).erase s)
+    simp only [bind, M.bind, M.withPath, VPath.openFile, run_openFile hi, Mem.openFile_file ms s e hs hf,
+      Res.withPath, run_vcreateFile_fresh hj1 did d hd,
+      run_moveTail sid s d e.content (touched e) hi2 hs2 hf hj3]
+    refine ⟨_, rfl, ?_, ⟨rfl, rfl, rfl⟩, _, _, (hi2.set _).set_ne (Ne.symm hij) _, hj3.set _, ?_, ?_⟩
+    · intro l hl hl'
+      simp only [World.leaf?_setLeafFiles_ne _ _ _ _ (Ne.symm hl), World.leaf?_setLeafFiles_ne _ _ _ _ (Ne.symm hl')]
+    · intro k
+      rw [find?_publish_fresh]
+      simp [hij]
+    · intro k
+      rw [FMap.find?_erase, FMap.find?_insert]
+      by_cases hks : k = s <;> simp [hks, hij]
+
+/-! ### 4. the fast path on a physical leaf -/
+
+/-- leaf `i` of the world is a physical leaf holding `b` -/
+def PhysLeafAt (w : World) (i : Nat) (b : FMap) : Prop :=
+  w.leaf? i = some { kind := .phys, files := b }
+
+theorem PhysLeafAt.set {w : World} {i : Nat} {b : FMap} (h : PhysLeafAt w i b) (b' : FMap) :
+    PhysLeafAt (w.setLeafFiles i b') i b' := by
+  unfold PhysLeafAt at *
+  rw [World.setLeafFiles_same w i _ b' h]
+
+theorem run_onLeaf_phys {w : World} {i : Nat} {b : FMap} (h : PhysLeafAt w i b) {α}
+    (f : Leaf → Res α × FMap) :
+    onLeaf i f w = ((f { kind := .phys, files := b }).1,
+      w.setLeafFiles i (f { kind := .phys, files := b }).2) := by
+  unfold onLeaf
+  unfold PhysLeafAt at h
+  rw [h]
+
+theorem run_exists_phys {w : World} {i : Nat} {b : FMap} (h : PhysLeafAt w i b) (p : Str) :
+    (leafFS i).exists_ p w = (.ok (Phys.exists_ b p), w) := by
+  show onLeaf i _ w = _
+  rw [run_onLeaf_phys h]
+  simp [World.setLeafFiles_self w i _ h]
+
+theorem copyFile_fast_route (src dst : VPath) (w w' : World)
+    (hex : dst.exists_ w = (.ok false, w)) (hid : src.fsId = dst.fsId)
+    (hfast : src.fs.copyFile src.path dst.path w = (.ok (), w')) :
+    src.copyFile dst w = (.ok (), w') := by
+  unfold VPath.copyFile
+  simp [M.withPath, bind, M.bind, hex, hid, M.attempt, hfast, pure, M.pure, Res.withPath]
+
+theorem moveFile_fast_route (src dst : VPath) (w w' : World)
+    (hex : dst.exists_ w = (.ok false, w)) (hid : src.fsId = dst.fsId)
+    (hfast : src.fs.moveFile src.path dst.path w = (.ok (), w')) :
+    src.moveFile dst w = (.ok (), w') := by
+  unfold VPath.moveFile
+  simp [M.withPath, bind, M.bind, hex, hid, M.attempt, hfast, pure, M.pure, Res.withPath]
+
+theorem FreshDest.lookup {b : FMap} {d : Str} (hwf : WF b) (h : FreshDest b d) :
+    Phys.lookup b d = .ok none := by
+  obtain ⟨pe, hpe, hpd⟩ := h.parent
+  rw [hwf.lookup_child d h.slash pe hpe hpd, h.absent]
+
+theorem Phys.copyFile_fresh (b : FMap) (hwf : WF b) (s d : Str) (e : Entry)
+    (hs : b.find? s = some e) (hf : e.ftype = .file) (hd : FreshDest b d) :
+    Phys.copyFile b s d = (.ok (), b.insert d { fileEntryNow with content := e.content }) := by
+  simp [Phys.copyFile, hwf.lookup_present s e hs, hf, hd.lookup hwf]
+
+theorem prefix_mem_ancestors (s k : Str) (h : (s ++ ['/']).isPrefixOf k = true) :
+    s ∈ Phys.ancestors k := by
+  rw [List.isPrefixOf_iff_prefix] at h
+  obtain ⟨t, rfl⟩ := h
+  rw [mem_ancestors]
+  refine ⟨s.length, by simp [List.length_append], ?_, ?_⟩
+  · simp [List.append_assoc]
+  · simp [List.append_assoc]
+
+/-- nothing lives below a file of a well-formed map -/
+theorem WF.nothing_below_file {b : FMap} (hwf : WF b) (s : Str) (e : Entry)
+    (hs : b.find? s = some e) (hf : e.ftype = .file) (k : Str) (hk : ∃ e', b.find? k = some e') :
+    (s ++ ['/']).isPrefixOf k = false := by
+  cases hp : (s ++ ['/']).isPrefixOf k with
+  | false => rfl
+  | true =>
+    obtain ⟨e', he', hd'⟩ := hwf.ancestors_good k.length k (Nat.le_refl _) hk s (prefix_mem_ancestors s k hp)
+    rw [hs] at he'; injection he' with he'; subst he'
+    rw [hf] at hd'; cases hd'
+
+theorem find?_renameTree_leaf (b : FMap) (s d : Str) (hsd : s ≠ d)
+    (hnb : ∀ k ∈ b.keys, (s ++ ['/']).isPrefixOf k = false) (hd : b.find? d = none) (k : Str) :
+    (Phys.renameTree b s d).find? k =
+      if k = d then b.find? s else if k = s then none else b.find? k := by
+  induction b with
+  | nil => simp [Phys.renameTree]
+  | cons kv rest ih =>
+    obtain ⟨k1, v⟩ := kv
+    have hnb1 : (s ++ ['/']).isPrefixOf k1 = false := hnb k1 (by simp [FMap.keys])
+    rw [FMap.find?_cons] at hd
+    have hk1d : k1 ≠ d := by intro h; simp [h] at hd
+    rw [if_neg hk1d] at hd
+    have ih' := ih (fun x hx => hnb x (by simp [FMap.keys] at hx ⊢; exact Or.inr hx)) hd
+    unfold Phys.renameTree at ih' ⊢
+    simp only [List.map_cons, hnb1, Bool.false_eq_true, ↓reduceIte]
+    by_cases h1 : k1 = s
+    · subst h1
+      simp only [↓reduceIte, FMap.find?_cons, ih']
+      by_cases hkd : k = d
+      · simp [hkd]
+      · have : ¬ d = k := fun h => hkd h.symm
+        by_cases hks : k = k1
+        · subst hks; simp [hk1d, Ne.symm hk1d]
+        · have : ¬ k1 = k := fun h => hks h.symm
+          simp [*]
+    · simp only [h1, ↓reduceIte, FMap.find?_cons, ih']
+      by_cases hk : k1 = k
+      · subst hk; simp [hk1d, h1]
+      · simp [hk]
+
+theorem Phys.rename_file (b : FMap) (hwf : WF b) (s d : Str) (e : Entry)
+    (hs : b.find? s = some e) (hf : e.ftype = .file) (hd : FreshDest b d) :
+    Phys.rename b s d = (.ok (), Phys.renameTree b s d) := by
+  obtain ⟨pe, hpe, hpd⟩ := hd.parent
+  have hnp : (s ++ ['/']).isPrefixOf d = false := by
+    cases hp : (s ++ ['/']).isPrefixOf d with
+    | false => rfl
+    | true =>
+      have hres := hwf.resolve_child d hd.slash pe hpe hpd
+      rw [resolveParent_ok_iff] at hres
+      obtain ⟨e', he', hd'⟩ := hres s (prefix_mem_ancestors s d hp)
+      rw [hs] at he'; injection he' with he'; subst he'
+      rw [hf] at hd'; cases hd'
+  simp [Phys.rename, hwf.resolve_present s e hs, hwf.resolve_child d hd.slash pe hpe hpd,
+    hwf.lookup_present s e hs, hd.lookup hwf, hnp]
+
+theorem Phys.find?_rename_file (b : FMap) (hwf : WF b) (s d : Str) (e : Entry)
+    (hs : b.find? s = some e) (hf : e.ftype = .file) (hd : b.find? d = none) (k : Str) :
+    (Phys.renameTree b s d).find? k =
+      if k = d then some e else if k = s then none else b.find? k := by
+  have hsd : s ≠ d := by intro h; rw [h, hd] at hs; cases hs
+  rw [find?_renameTree_leaf b s d hsd ?_ hd, hs]
+  intro x hx
+  exact hwf.nothing_below_file s e hs hf x ((FMap.mem_keys_iff b x).1 hx)
+
+/-- `copy_file` on one physical filesystem: the fast path (`std::fs::copy`) does it all -/
+theorem copyFile_phys {w : World} {i : Nat} {b : FMap} (h : PhysLeafAt w i b) (hwf : WF b)
+    (id : Nat) (s d : Str) (e : Entry) (hs : b.find? s = some e) (hf : e.ftype = .file)
+    (hd : FreshDest b d) :
+    VPath.copyFile { fs := leafFS i, fsId := id, path := s } { fs := leafFS i, fsId := id, path := d } w =
+      (.ok (), w.setLeafFiles i (b.insert d { fileEntryNow with content := e.content })) := by
+  apply copyFile_fast_route
+  · simp [VPath.exists_, run_exists_phys h, Phys.exists_absent b d hd.absent]
+  · rfl
+  · show onLeaf i _ w = _
+    rw [run_onLeaf_phys h]
+    simp [Phys.copyFile_fresh b hwf s d e hs hf hd]
+
+/-- `move_file` on one physical filesystem: the fast path (`std::fs::rename`) does it all -/
+theorem moveFile_phys {w : World} {i : Nat} {b : FMap} (h : PhysLeafAt w i b) (hwf : WF b)
+    (id : Nat) (s d : Str) (e : Entry) (hs : b.find? s = some e) (hf : e.ftype = .file)
+    (hd : FreshDest b d) :
+    VPath.moveFile { fs := leafFS i, fsId := id, path := s } { fs := leafFS i, fsId := id, path := d } w =
+      (.ok (), w.setLeafFiles i (Phys.renameTree b s d)) := by
+  apply moveFile_fast_route
+  · simp [VPath.exists_, run_exists_phys h, Phys.exists_absent b d hd.absent]
+  · rfl
+  · show onLeaf i _ w = _
+    rw [run_onLeaf_phys h]
+    simp [Phys.rename_file b hwf s d e hs hf hd]
+
+/-- freshness of a destination only looks at types, so it transfers along `CoreEq` -/
+theorem FreshDest.of_coreEq {a b : FMap} {d : Str} (h : FreshDest a d) (hc : CoreEq a b) :
+    FreshDest b d := by
+  obtain ⟨pe, hpe, hpd⟩ := h.parent
+  obtain ⟨pe', hpe', ht, _⟩ := hc.some _ pe hpe
+  exact ⟨(hc.none_iff d).1 h.absent, h.slash, pe', hpe', by rw [ht]; exact hpd⟩
+
+/-! ### 5. `remove_dir_all` on a memory leaf -/
+
+/-- `k` is `P` or lies below it -/
+def under (P k : Str) : Bool := decide (k = P) || (P ++ ['/']).isPrefixOf k
+
+theorem under_self (P : Str) : under P P = true := by simp [under]
+
+theorem under_iff (P k : Str) : under P k = true ↔ k = P ∨ ∃ t, k = P ++ '/' :: t := by
+  unfold under
+  rw [Bool.or_eq_true, decide_eq_true_eq, List.isPrefixOf_iff_prefix]
+  constructor
+  · rintro (h | ⟨t, ht⟩)
+    · exact Or.inl h
+    · exact Or.inr ⟨t, by rw [← ht]; simp⟩
+  · rintro (h | ⟨t, ht⟩)
+    · exact Or.inl h
+    · exact Or.inr ⟨t, by rw [ht]; simp⟩
+
+theorem under_child (P n k : Str) (h : under (P ++ '/' :: n) k = true) :
+    under P k = true ∧ k ≠ P := by
+  rw [under_iff] at h
+  rcases h with h | ⟨t, h⟩
+  · subst h
+    refine ⟨(under_iff _ _).2 (Or.inr ⟨n, rfl⟩), ?_⟩
+    intro heq
+    have := congrArg List.length heq
+    simp [List.length_append] at this
+  · subst h
+    refine ⟨(under_iff _ _).2 (Or.inr ⟨n ++ '/' :: t, by simp⟩), ?_⟩
+    intro heq
+    have := congrArg List.length heq
+    simp [List.length_append] at this
+
+theorem under_sibling (P n1 n2 : Str) (h2 : '/' ∉ n2) (hne : n1 ≠ n2) :
+    under (P ++ '/' :: n1) (P ++ '/' :: n2) = false := by
+  cases hu : under (P ++ '/' :: n1) (P ++ '/' :: n2) with
+  | false => rfl
+  | true =>
+    rw [under_iff] at hu
+    rcases hu with h | ⟨t, h⟩
+    · have := List.append_cancel_left h
+      injection this with _ this
+      exact absurd this.symm hne
+    · rw [List.append_assoc] at h
+      have := List.append_cancel_left h
+      injection this with _ this
+      exact absurd (by rw [this]; simp) h2
+
+/-- a present key strictly below `P` lies at or below a present child of `P` -/
+theorem WF.below_via_child {m : FMap} (hwf : WF m) (P t : Str) (e : Entry)
+    (hk : m.find? (P ++ '/' :: t) = some e) :
+    ∃ n, '/' ∉ n ∧ (∃ e', m.find? (P ++ '/' :: n) = some e') ∧
+      under (P ++ '/' :: n) (P ++ '/' :: t) = true := by
+  by_cases hs : '/' ∈ t
+  · -- t = n ++ '/' :: t' with n slash-free
+    obtain ⟨n, t', rfl, hn⟩ : ∃ n t', t = n ++ '/' :: t' ∧ '/' ∉ n := by
+      clear hk
+      induction t with
+      | nil => simp at hs
+      | cons c cs ih =>
+        by_cases hc : c = '/'
+        · exact ⟨[], cs, by simp [hc], by simp⟩
+        · have : '/' ∈ cs := by
+            simp only [List.mem_cons] at hs
+            rcases hs with h | h
+            · exact absurd h.symm hc
+            · exact h
+          obtain ⟨n, t', h1, h2⟩ := ih this
+          refine ⟨c :: n, t', by rw [h1]; simp, ?_⟩
+          simp only [List.mem_cons, not_or]
+          exact ⟨fun h => hc h.symm, h2⟩
+    refine ⟨n, hn, ?_, (under_iff _ _).2 (Or.inr ⟨t', by simp⟩)⟩
+    have hanc : (P ++ '/' :: n) ∈ Phys.ancestors (P ++ '/' :: (n ++ '/' :: t')) := by
+      apply prefix_mem_ancestors
+      rw [List.isPrefixOf_iff_prefix]
+      exact ⟨t', by simp⟩
+    obtain ⟨e', he', _⟩ := hwf.ancestors_good _ _ (Nat.le_refl _) ⟨e, hk⟩ _ hanc
+    exact ⟨e', he'⟩
+  · exact ⟨t, hs, ⟨e, hk⟩, under_self _⟩
+
+/-- `m'` is `m` without the subtree at `P`; everything else is untouched -/
+def SubtreeRemoved (m m' : FMap) (P : Str) : Prop :=
+  ∀ k, m'.find? k = if under P k then none else m.find? k
+
+/-- specification of `remove_dir_all fuel` on an existing directory of memory leaf `i`.
+Fuel (the recursion depth available) must exceed the length difference to the longest key. -/
+def RDSpec (i id fuel : Nat) : Prop :=
+  ∀ (w : World) (m : FMap) (P : Str) (e : Entry), MemLeafAt w i m → WF m → FMap.NodupKeys m →
+    P ≠ [] → m.find? P = some e → e.ftype = .dir →
+    (∀ k e', m.find? k = some e' → k.length < P.length + fuel) →
+    ∃ m', VPath.removeDirAll fuel { fs := leafFS i, fsId := id, path := P } w =
+        (.ok (), w.setLeafFiles i m') ∧ WF m' ∧ FMap.NodupKeys m' ∧ SubtreeRemoved m m' P
+
+/-- the children loop: the subtrees of the listed children go, one after the other -/
+def RCSpec (i id fuel : Nat) : Prop :=
+  ∀ (P : Str) (ns : List Str) (w : World) (m1 : FMap), MemLeafAt w i m1 → WF m1 →
+    FMap.NodupKeys m1 → ns.Nodup → (∀ n ∈ ns, '/' ∉ n) →
+    (∀ n ∈ ns, ∃ e, m1.find? (P ++ '/' :: n) = some e) →
+    (∀ k e', m1.find? k = some e' → k.length < P.length + 1 + fuel) →
+    ∃ m', VPath.removeChildren fuel
+        (ns.map fun n => ({ fs := leafFS i, fsId := id, path := P ++ '/' :: n } : VPath)) w =
+        (.ok (), w.setLeafFiles i m') ∧ WF m' ∧ FMap.NodupKeys m' ∧
+      ∀ k, m'.find? k = if ns.any (fun n => under (P ++ '/' :: n) k) then none else m1.find? k
+
+theorem run_vmetadata {w : World} {i : Nat} {m : FMap} (h : MemLeafAt w i m) (id : Nat) (p : Str)
+    (e : Entry) (he : m.find? p = some e) :
+    VPath.metadata { fs := leafFS i, fsId := id, path := p } w = (.ok e.meta, w) := by
+  simp [VPath.metadata, M.withPath, run_metadata h, Mem.metadata, he, Res.withPath]
+
+theorem rc_of_rd (i id fuel : Nat) (hRD : RDSpec i id fuel) : RCSpec i id fuel := by
+  intro P ns
+  induction ns with
+  | nil =>
+    intro w m1 h hwf hnd _ _ _ _
+    exact ⟨m1, by simp [VPath.removeChildren, pure, M.pure, h.same], hwf, hnd, fun k => by simp⟩
+  | cons n rest ih =>
+    intro w m1 h hwf hnd hns hsl hex hb
+    obtain ⟨ec, hec⟩ := hex n (by simp)
+    have hn : '/' ∉ n := hsl n (by simp)
+    rw [List.nodup_cons] at hns
+    -- what remains to do once the first child is gone
+    have cont : ∀ m2, WF m2 → FMap.NodupKeys m2 → SubtreeRemoved m1 m2 (P ++ '/' :: n) →
+        ∃ m', VPath.removeChildren fuel
+          (rest.map fun n => ({ fs := leafFS i, fsId := id, path := P ++ '/' :: n } : VPath))
+          (w.setLeafFiles i m2) = (.ok (), w.setLeafFiles i m') ∧ WF m' ∧ FMap.NodupKeys m' ∧
+        ∀ k, m'.find? k =
+          if (n :: rest).any (fun n => under (P ++ '/' :: n) k) then none else m1.find? k := by
+      intro m2 hwf2 hnd2 hrem
+      obtain ⟨m', hrun, hwf', hnd', hfind⟩ := ih (w.setLeafFiles i m2) m2 (h.set m2) hwf2 hnd2 hns.2
+        (fun x hx => hsl x (by simp [hx]))
+        (fun x hx => by
+          obtain ⟨ex, hex'⟩ := hex x (by simp [hx])
+          refine ⟨ex, ?_⟩
+          have hne : n ≠ x := fun heq => hns.1 (heq ▸ hx)
+          rw [hrem, under_sibling P n x (hsl x (by simp [hx])) hne]
+          exact hex')
+        (fun k e' hk => by
+          rw [hrem] at hk
+          split at hk
+          · cases hk
+          · exact hb k e' hk)
+      refine ⟨m', by rw [hrun, World.setLeafFiles_twice], hwf', hnd', ?_⟩
+      intro k
+      rw [hfind k, hrem k, List.any_cons]
+      cases under (P ++ '/' :: n) k <;> simp
+    rw [List.map_cons, VPath.removeChildren.eq_2]
+    cases hft : ec.ftype with
+    | file =>
+      simp only [bind, M.bind, run_vmetadata h id _ ec hec, Entry.meta, hft,
+        run_pRemoveFile h, Mem.pRemoveFile, Mem.removeFile_file m1 _ ec hec hft, Res.withPath]
+      apply cont (m1.erase (P ++ '/' :: n))
+      · have := hwf.pRemoveFile (P ++ '/' :: n)
+        simpa [Mem.pRemoveFile, Mem.removeFile_file m1 _ ec hec hft] using this
+      · exact FMap.nodup_erase _ _ hnd
+      · intro k
+        rw [FMap.find?_erase]
+        by_cases hk : k = P ++ '/' :: n
+        · subst hk; simp [under_self]
+        · rw [if_neg hk]
+          cases hu : under (P ++ '/' :: n) k with
+          | false => simp
+          | true =>
+            simp only [↓reduceIte]
+            cases hf : m1.find? k with
+            | none => rfl
+            | some e' =>
+              have := hwf.nothing_below_file _ ec hec hft k ⟨e', hf⟩
+              unfold under at hu
+              rw [this] at hu
+              simp [hk] at hu
+    | dir =>
+      obtain ⟨m2, hrun, hwf2, hnd2, hrem⟩ := hRD w m1 (P ++ '/' :: n) ec h hwf hnd (by simp) hec hft
+        (fun k e' hk => by
+          have := hb k e' hk
+          simp [List.length_append]; omega)
+      simp only [bind, M.bind, run_vmetadata h id _ ec hec, Entry.meta, hft, hrun]
+      exact cont m2 hwf2 hnd2 hrem
+
+theorem Mem.readDir_dir (m : FMap) (P : Str) (e : Entry) (he : m.find? P = some e)
+    (hd : e.ftype = .dir) : Mem.readDir m P = .ok (m.keys.filterMap (childName P)) := by
+  simp [Mem.readDir, he, hd]
+
+theorem mem_listing (m : FMap) (P n : Str) (hn : '/' ∉ n) (e : Entry)
+    (he : m.find? (P ++ '/' :: n) = some e) : n ∈ m.keys.filterMap (childName P) :=
+  (mem_filterMap_childName m P n).2
+    ⟨_, e, he, by simp, parent_of_child P n hn, afterLast_append_delim '/' P n hn⟩
+
+theorem listing_spec (m : FMap) (P n : Str) (h : n ∈ m.keys.filterMap (childName P)) :
+    '/' ∉ n ∧ ∃ e, m.find? (P ++ '/' :: n) = some e := by
+  obtain ⟨k, e, hk, hs, hp, ha⟩ := (mem_filterMap_childName m P n).1 h
+  obtain ⟨h1, h2⟩ := split_last '/' k hs
+  unfold parentInternal at hp
+  rw [hp, ha] at h1
+  rw [ha] at h2
+  exact ⟨h2, e, by rw [← h1]; exact hk⟩
+
+theorem rd_all (i id : Nat) : ∀ fuel, RDSpec i id fuel := by
+  intro fuel
+  induction fuel with
+  | zero =>
+    intro w m P e _ _ _ _ he _ hb
+    have := hb P e he
+    omega
+  | succ fuel ih =>
+    have hRC := rc_of_rd i id fuel ih
+    intro w m P e h hwf hnd hP he hd hb
+    have hcont : m.contains P = true := (FMap.contains_iff _ _).2 ⟨e, he⟩
+    obtain ⟨m1, hrun, hwf1, hnd1, hfind⟩ := hRC P (m.keys.filterMap (childName P)) w m h hwf hnd
+      (filterMap_childName_nodup m P hnd) (fun n hn => (listing_spec m P n hn).1)
+      (fun n hn => (listing_spec m P n hn).2) (fun k e' hk => by have := hb k e' hk; omega)
+    -- after the children are gone, `P` is an empty directory
+    have hP1 : m1.find? P = some e := by
+      rw [hfind P]
+      have : (m.keys.filterMap (childName P)).any (fun n => under (P ++ '/' :: n) P) = false := by
+        rw [Bool.eq_false_iff]
+        intro hany
+        rw [List.any_eq_true] at hany
+        obtain ⟨n, _, hu⟩ := hany
+        exact (under_child P n P hu).2 rfl
+      rw [this]; exact he
+    have hempty : m1.keys.filterMap (childName P) = [] := by
+      apply List.eq_nil_iff_forall_not_mem.2
+      intro n hn
+      obtain ⟨hsl, e', he'⟩ := listing_spec m1 P n hn
+      rw [hfind] at he'
+      split at he'
+      · cases he'
+      · rename_i hany
+        apply hany
+        rw [List.any_eq_true]
+        exact ⟨n, mem_listing m P n hsl e' he', under_self _⟩
+    have hrd : Mem.removeDir m1 P = (.ok (), m1.erase P) := by
+      have hc1 : m1.contains P = true := (FMap.contains_iff _ _).2 ⟨e, hP1⟩
+      simp [Mem.removeDir, Mem.readDir_dir m1 P e hP1 hd, hempty, hc1]
+    refine ⟨m1.erase P, ?_, ?_, FMap.nodup_erase _ _ hnd1, ?_⟩
+    · rw [VPath.removeDirAll.eq_2]
+      have hl : (List.map (fun n => VPath.withStr { fs := leafFS i, fsId := id, path := P } (P ++ '/' :: n))
+          (m.keys.filterMap (childName P))) =
+          (List.map (fun n => ({ fs := leafFS i, fsId := id, path := P ++ '/' :: n } : VPath))
+          (m.keys.filterMap (childName P))) := rfl
+      simp only [bind, M.bind, VPath.exists_, run_exists h, hcont, Bool.not_true, Bool.false_eq_true,
+        ↓reduceIte, VPath.readDir, M.withPath, run_readDir h, Mem.readDir_dir m P e he hd,
+        Res.withPath, pure, M.pure, hl, hrun, run_pRemoveDir (h.set m1), Mem.pRemoveDir, hrd,
+        World.setLeafFiles_twice]
+    · have := hwf1.pRemoveDir P hP
+      simpa [Mem.pRemoveDir, hrd] using this
+    · intro k
+      rw [FMap.find?_erase]
+      by_cases hk : k = P
+      · subst hk; simp [under_self]
+      · rw [if_neg hk, hfind k]
+        cases hany : (m.keys.filterMap (childName P)).any (fun n => under (P ++ '/' :: n) k) with
+        | true =>
+          rw [List.any_eq_true] at hany
+          obtain ⟨n, _, hu⟩ := hany
+          simp [(under_child P n k hu).1]
+        | false =>
+          simp only [Bool.false_eq_true, ↓reduceIte]
+          cases hu : under P k with
+          | false => simp
+          | true =>
+            simp only [↓reduceIte]
+            cases hf : m.find? k with
+            | none => rfl
+            | some e' =>
+              exfalso
+              rcases (under_iff P k).1 hu with hkp | ⟨t, ht⟩
+              · exact hk hkp
+              · subst ht
+                obtain ⟨n, hn, ⟨en, hen⟩, hun⟩ := hwf.below_via_child P t e' hf
+                have : (m.keys.filterMap (childName P)).any (fun n => under (P ++ '/' :: n) (P ++ '/' :: t)) = true := by
+                  rw [List.any_eq_true]
+                  exact ⟨n, mem_listing m P n hn en hen, hun⟩
+                rw [this] at hany; cases hany
+
+/-! ### 6. copy_dir / move_dir -/
+
+/-- the walk-and-copy route of `copy_dir` -/
+def VPath.copyDirBody (fuel : Nat) (src dst : VPath) : M Nat := do
+  dst.createDir
+  let s ← src.walkDir
+  VPath.copyItems fuel src dst s 0
+
+theorem copyDir_route (fuel : Nat) (src dst : VPath) (w : World)
+    (hex : dst.exists_ w = (.ok false, w)) :
+    src.copyDir fuel dst w = M.withPath src.path (src.copyDirBody fuel dst) w := by
+  unfold VPath.copyDir VPath.copyDirBody
+  simp [M.withPath, bind, M.bind, hex]
+
+/-- the walk-copy-remove route of `move_dir` -/
+def VPath.moveDirBody (fuel : Nat) (src dst : VPath) : M Unit := do
+  dst.createDir
+  let s ← src.walkDir
+  let _ ← VPath.copyItems fuel src dst s 0
+  VPath.removeDirAll fuel src
+
+theorem moveDir_route (fuel : Nat) (src dst : VPath) (w : World)
+    (hex : dst.exists_ w = (.ok false, w))
+    (hfast : src.fsId = dst.fsId →
+      ∃ pth, src.fs.moveDir src.path dst.path w = (.err .notSupported pth, w)) :
+    src.moveDir fuel dst w = M.withPath src.path (src.moveDirBody fuel dst) w := by
+  unfold VPath.moveDir VPath.moveDirBody
+  by_cases hid : src.fsId = dst.fsId
+  · obtain ⟨pth, hp⟩ := hfast hid
+    simp [M.withPath, bind, M.bind, hex, hid, M.attempt, hp]
+  · simp [M.withPath, bind, M.bind, hex, hid, pure, M.pure, fail]
+
+/-- an exhausted walk ends the copy loop with the count so far -/
+theorem copyItems_done (fuel : Nat) (src dst : VPath) (count : Nat) (w : World) :
+    VPath.copyItems (fuel + 1) src dst { inner := [], todo := [] } count w = (.ok count, w) := by
+  rw [VPath.copyItems]
+  simp [bind, M.bind, VPath.walkNext, VPath.walkFind, pure, M.pure]
+
+theorem drop_child (S n : Str) : (S ++ '/' :: n).drop (S.length + 1) = n := by
+  have : S ++ '/' :: n = (S ++ ['/']) ++ n := by simp
+  rw [this]
+  exact List.drop_left' (by simp)
+
+/-- one step of the copy loop on a listed FILE of a memory leaf: the item is copied to
+`dst/name` and counted -/
+theorem copyItems_file_step {w : World} {i : Nat} {ms : FMap} (h : MemLeafAt w i ms)
+    (fuel sid : Nat) (S n : Str) (dfs : FS) (did : Nat) (bs : List Str) (hbs : ∀ c ∈ bs, '/' ∉ c)
+    (hn : GoodComp n) (e : Entry) (he : ms.find? (S ++ '/' :: n) = some e) (hf : e.ftype = .file)
+    (inner : List VPath) (count : Nat) :
+    VPath.copyItems (fuel + 1) { fs := leafFS i, fsId := sid, path := S }
+        { fs := dfs, fsId := did, path := renderC bs }
+        { inner := { fs := leafFS i, fsId := sid, path := S ++ '/' :: n } :: inner, todo := [] } count w =
+      M.bind (VPath.copyFile { fs := leafFS i, fsId := sid, path := S ++ '/' :: n }
+                { fs := dfs, fsId := did, path := renderC (bs ++ [n]) })
+        (fun _ => VPath.copyItems fuel { fs := leafFS i, fsId := sid, path := S }
+          { fs := dfs, fsId := did, path := renderC bs } { inner := inner, todo := [] } (count + 1)) w := by
+  rw [VPath.copyItems]
+  have hlen : ¬ (S ++ '/' :: n).length < S.length + 1 := by simp [List.length_append]
+  simp only [bind, M.bind, VPath.walkNext, VPath.walkFind, pure, M.pure,
+    run_vmetadata h sid _ e he, Entry.meta, hf, ↓reduceIte, reduceCtorEq,
+    VPath.relJoin, hlen, drop_child, VPath.join, C06.join_name bs n hbs hn, Res.map, M.ret,
+    VPath.withStr]
+
+theorem child_inj (P a b : Str) (h : P ++ '/' :: a = P ++ '/' :: b) : a = b := by
+  have := List.append_cancel_left h
+  injection this
+
+/-- What copying the listed files `S/n ↦ D/n` (n ∈ ns) from leaf `i` to leaf `j` leaves behind;
+one statement for `i = j` and `i ≠ j`. -/
+structure FlatCopied (i j : Nat) (ms md : FMap) (S D : Str) (ns : List Str) (w w' : World) : Prop where
+  others : ∀ l, l ≠ i → l ≠ j → w'.leaf? l = w.leaf? l
+  leaves : ∃ ms' md', MemLeafAt w' i ms' ∧ MemLeafAt w' j md' ∧
+    -- every listed file arrived with its bytes
+    (∀ n ∈ ns, ∃ e, ms.find? (S ++ '/' :: n) = some e ∧
+      md'.find? (D ++ '/' :: n) = some (copiedEntry e.content)) ∧
+    -- the sources are still there (access time stamped)
+    (∀ n ∈ ns, ∃ e, ms.find? (S ++ '/' :: n) = some e ∧
+      ms'.find? (S ++ '/' :: n) = some (touched e)) ∧
+    -- nothing else changed on the destination leaf
+    (∀ k, (∀ n ∈ ns, k ≠ D ++ '/' :: n) → (i = j → ∀ n ∈ ns, k ≠ S ++ '/' :: n) →
+      md'.find? k = md.find? k) ∧
+    -- nothing else changed on the source leaf
+    (∀ k, (∀ n ∈ ns, k ≠ S ++ '/' :: n) → (i = j → ∀ n ∈ ns, k ≠ D ++ '/' :: n) →
+      ms'.find? k = ms.find? k)
+  inv : ∀ ms' md', MemLeafAt w' i ms' → MemLeafAt w' j md' →
+    (WF ms → WF md → WF ms' ∧ WF md') ∧
+    (FMap.NodupKeys ms → FMap.NodupKeys md → FMap.NodupKeys ms' ∧ FMap.NodupKeys md')
+
+theorem copyItems_flat {i j : Nat} (sid did : Nat) (S : Str) (bs : List Str)
+    (hbs : ∀ c ∈ bs, '/' ∉ c) :
+    ∀ (ns : List Str) (fuel count : Nat) (w : World) (ms md : FMap),
+      MemLeafAt w i ms → MemLeafAt w j md → ns.length < fuel → ns.Nodup →
+      (∀ n ∈ ns, GoodComp n) →
+      (∀ n ∈ ns, ∃ e, ms.find? (S ++ '/' :: n) = some e ∧ e.ftype = .file) →
+      (∃ de, md.find? (renderC bs) = some de ∧ de.ftype = .dir) →
+      (∀ n ∈ ns, md.find? (renderC bs ++ '/' :: n) = none) →
+      ∃ w', VPath.copyItems fuel { fs := leafFS i, fsId := sid, path := S }
+            { fs := leafFS j, fsId := did, path := renderC bs }
+            { inner := ns.map fun n => ({ fs := leafFS i, fsId := sid, path := S ++ '/' :: n } : VPath),
+              todo := [] } count w = (.ok (count + ns.length), w') ∧
+        FlatCopied i j ms md S (renderC bs) ns w w' := by
+  intro ns
+  induction ns with
+  | nil =>
+    intro fuel count w ms md hi hj hfuel _ _ _ _ _
+    obtain ⟨fuel', rfl⟩ : ∃ f, fuel = f + 1 := ⟨fuel - 1, by simp at hfuel; omega⟩
+    refine ⟨w, by simp [copyItems_done], fun _ _ _ => rfl, ⟨ms, md, hi, hj, by simp, by simp,
+      fun _ _ _ => rfl, fun _ _ _ => rfl⟩, ?_⟩
+    intro ms' md' hms' hmd'
+    have e1 := hms'.unique hi
+    have e2 := hmd'.unique hj
+    subst e1; subst e2
+    exact ⟨fun h1 h2 => ⟨h1, h2⟩, fun h1 h2 => ⟨h1, h2⟩⟩
+  | cons n rest ih =>
+    intro fuel count w ms md hi hj hfuel hnd hgood hsrc hD habs
+    obtain ⟨fuel', rfl⟩ : ∃ f, fuel = f + 1 := ⟨fuel - 1, by simp at hfuel; omega⟩
+    rw [List.nodup_cons] at hnd
+    obtain ⟨e, he, hf⟩ := hsrc n (by simp)
+    obtain ⟨de, hde, hdd⟩ := hD
+    have hn := hgood n (by simp)
+    have hsame : i = j → ms = md := fun hij => by subst hij; exact hi.unique hj
+    -- a present source name is never an absent destination name on the same leaf
+    have hAB : ∀ x y, i = j → (∃ ex, ms.find? (S ++ '/' :: x) = some ex) →
+        md.find? (renderC bs ++ '/' :: y) = none → S ++ '/' :: x ≠ renderC bs ++ '/' :: y := by
+      intro x y hij ⟨ex, hex⟩ hy heq
+      rw [hsame hij, heq, hy] at hex; cases hex
+    have hfresh : FreshDest md (renderC bs ++ '/' :: n) :=
+      ⟨habs n (by simp), by simp, de, by rw [parent_of_child _ _ hn.2.1]; exact hde, hdd⟩
+    obtain ⟨w1, hrun1, hc1, _, ⟨ms1, md1, hi1, hj1, hmd1, hms1⟩, hinv1⟩ :=
+      copyFile_mem hi hj sid did (S ++ '/' :: n) (renderC bs ++ '/' :: n) e he hf hfresh
+    -- facts about the maps after the first copy
+    have hsrc_keep : ∀ x ∈ rest, ms1.find? (S ++ '/' :: x) = ms.find? (S ++ '/' :: x) := by
+      intro x hx
+      rw [hms1]
+      have h1 : ¬ (i = j ∧ S ++ '/' :: x = renderC bs ++ '/' :: n) := fun ⟨hij, heq⟩ =>
+        hAB x n hij (by obtain ⟨ex, hex, _⟩ := hsrc x (by simp [hx]); exact ⟨ex, hex⟩) (habs n (by simp)) heq
+      have h2 : S ++ '/' :: x ≠ S ++ '/' :: n := fun heq => hnd.1 (child_inj S x n heq ▸ hx)
+      rw [if_neg h1, if_neg h2]
+    have hD1 : ∃ de, md1.find? (renderC bs) = some de ∧ de.ftype = .dir := by
+      rw [hmd1]
+      have h1 : renderC bs ≠ renderC bs ++ '/' :: n := by
+        intro heq; have := congrArg List.length heq; simp [List.length_append] at this
+      have h2 : ¬ (i = j ∧ renderC bs = S ++ '/' :: n) := fun ⟨hij, heq⟩ => by
+        rw [hsame hij, ← heq, hde] at he; injection he with he; subst he; rw [hf] at hdd; cases hdd
+      rw [if_neg h1, if_neg h2]; exact ⟨de, hde, hdd⟩
+    have habs1 : ∀ x ∈ rest, md1.find? (renderC bs ++ '/' :: x) = none := by
+      intro x hx
+      rw [hmd1]
+      have h1 : renderC bs ++ '/' :: x ≠ renderC bs ++ '/' :: n := fun heq =>
+        hnd.1 (child_inj _ x n heq ▸ hx)
+      have h2 : ¬ (i = j ∧ renderC bs ++ '/' :: x = S ++ '/' :: n) := fun ⟨hij, heq⟩ =>
+        hAB n x hij ⟨e, he⟩ (habs x (by simp [hx])) heq.symm
+      rw [if_neg h1, if_neg h2]; exact habs x (by simp [hx])
+    obtain ⟨w', hrun', hothers', ⟨ms', md', hi', hj', hdst', hsrc', hmdf', hmsf'⟩, hinv'⟩ :=
+      ih fuel' (count + 1) w1 ms1 md1 hi1 hj1 (by simp at hfuel; omega) hnd.2
+        (fun x hx => hgood x (by simp [hx]))
+        (fun x hx => by
+          obtain ⟨ex, hex, hfx⟩ := hsrc x (by simp [hx])
+          exact ⟨ex, by rw [hsrc_keep x hx]; exact hex, hfx⟩)
+        hD1 habs1
+    refine ⟨w', ?_, ?_, ⟨ms', md', hi', hj', ?_, ?_, ?_, ?_⟩, ?_⟩
+    · rw [List.map_cons, copyItems_file_step hi fuel' sid S n (leafFS j) did bs hbs hn e he hf,
+        renderC_snoc]
+      simp only [M.bind, hrun1, hrun', List.length_cons]
+      congr 2; omega
+    · intro l hl hl'
+      rw [hothers' l hl hl', hc1 l hl hl']
+    · intro x hx
+      rw [List.mem_cons] at hx
+      rcases hx with rfl | hx
+      · refine ⟨e, he, ?_⟩
+        rw [hmdf' _ (fun y hy heq => hnd.1 (child_inj _ x y heq ▸ hy))
+          (fun hij y hy heq => hAB y x hij
+            (by obtain ⟨ex, hex, _⟩ := hsrc y (by simp [hy]); exact ⟨ex, hex⟩) (habs x (by simp)) heq.symm),
+          hmd1, if_pos rfl]
+      · obtain ⟨e1, he1, hd1⟩ := hdst' x hx
+        rw [hsrc_keep x hx] at he1
+        exact ⟨e1, he1, hd1⟩
+    · intro x hx
+      rw [List.mem_cons] at hx
+      rcases hx with rfl | hx
+      · refine ⟨e, he, ?_⟩
+        rw [hmsf' _ (fun y hy heq => hnd.1 (child_inj _ x y heq ▸ hy))
+          (fun hij y hy heq => hAB x y hij ⟨e, he⟩ (habs y (by simp [hy])) heq),
+          hms1, if_neg (fun ⟨hij, heq⟩ => hAB x x hij ⟨e, he⟩ (habs x (by simp)) heq), if_pos rfl]
+      · obtain ⟨e1, he1, hs1⟩ := hsrc' x hx
+        rw [hsrc_keep x hx] at he1
+        exact ⟨e1, he1, hs1⟩
+    · intro k hk1 hk2
+      rw [hmdf' k (fun y hy => hk1 y (by simp [hy])) (fun hij y hy => hk2 hij y (by simp [hy])),
+        hmd1, if_neg (hk1 n (by simp)), if_neg (fun ⟨hij, heq⟩ => hk2 hij n (by simp) heq)]
+    · intro k hk1 hk2
+      rw [hmsf' k (fun y hy => hk1 y (by simp [hy])) (fun hij y hy => hk2 hij y (by simp [hy])),
+        hms1, if_neg (fun ⟨hij, heq⟩ => hk2 hij n (by simp) heq), if_neg (hk1 n (by simp))]
+    · intro ms'' md'' hms'' hmd''
+      obtain ⟨hw1, hn1⟩ := hinv1 ms1 md1 hi1 hj1
+      obtain ⟨hw2, hn2⟩ := hinv' ms'' md'' hms'' hmd''
+      exact ⟨fun a b => hw2 (hw1 a b).1 (hw1 a b).2, fun a b => hn2 (hn1 a b).1 (hn1 a b).2⟩
+
+theorem FMap.erase_absent (m : FMap) (k : Str) (h : m.find? k = none) : m.erase k = m := by
+  induction m with
+  | nil => rfl
+  | cons kv rest ih =>
+    obtain ⟨k1, v⟩ := kv
+    rw [FMap.find?_cons] at h
+    by_cases h1 : k1 = k
+    · simp [h1] at h
+    · rw [if_neg h1] at h
+      rw [FMap.erase_cons, if_neg h1, ih h]
+
+theorem FreshDest.pCreateDir {m : FMap} {d : Str} (h : FreshDest m d) :
+    Mem.pCreateDir m d = (.ok (), m.insert d dirEntryNow) := by
+  obtain ⟨pe, hpe, _⟩ := h.parent
+  have hc : m.contains (parentInternal d) = true := (FMap.contains_iff _ _).2 ⟨pe, hpe⟩
+  simp [Mem.pCreateDir, h.parentOk, Mem.createDir_fresh m d h.slash hc h.absent, Res.withPath]
+
+/-- the directory `S` of `ms` holds only files, with canonical names -/
+structure FlatDir (ms : FMap) (S : Str) : Prop where
+  isDir : ∃ se, ms.find? S = some se ∧ se.ftype = .dir
+  files : ∀ n ∈ ms.keys.filterMap (childName S),
+    GoodComp n ∧ ∃ e, ms.find? (S ++ '/' :: n) = some e ∧ e.ftype = .file
+
+/-- What `copy_dir S → D` of a flat directory leaves behind (one statement for the same leaf and
+for two leaves): the new directory `D`, under it every listed file with its bytes; the source
+files keep type and bytes (access time stamped); every other key is unchanged. -/
+structure FlatDirCopied (i j : Nat) (ms md : FMap) (S D : Str) (w w' : World) : Prop where
+  others : ∀ l, l ≠ i → l ≠ j → w'.leaf? l = w.leaf? l
+  leaves : ∃ ms' md', MemLeafAt w' i ms' ∧ MemLeafAt w' j md' ∧
+    md'.find? D = some dirEntryNow ∧
+    (∀ n ∈ ms.keys.filterMap (childName S), ∃ e, ms.find? (S ++ '/' :: n) = some e ∧
+      md'.find? (D ++ '/' :: n) = some (copiedEntry e.content)) ∧
+    (∀ n ∈ ms.keys.filterMap (childName S), ∃ e, ms.find? (S ++ '/' :: n) = some e ∧
+      ms'.find? (S ++ '/' :: n) = some (touched e)) ∧
+    (∀ k, k ≠ D → (∀ n ∈ ms.keys.filterMap (childName S), k ≠ D ++ '/' :: n) →
+      (i = j → ∀ n ∈ ms.keys.filterMap (childName S), k ≠ S ++ '/' :: n) → md'.find? k = md.find? k) ∧
+    (∀ k, (∀ n ∈ ms.keys.filterMap (childName S), k ≠ S ++ '/' :: n) →
+      (i = j → k ≠ D ∧ ∀ n ∈ ms.keys.filterMap (childName S), k ≠ D ++ '/' :: n) →
+      ms'.find? k = ms.find? k) ∧
+    (WF ms → WF ms' ∧ WF md') ∧ (FMap.NodupKeys md → FMap.NodupKeys ms' ∧ FMap.NodupKeys md')
+
+theorem copyDirBody_flat {w : World} {i j : Nat} {ms md : FMap}
+    (hi : MemLeafAt w i ms) (hj : MemLeafAt w j md) (sid did fuel : Nat) (S : Str) (bs : List Str)
+    (hbs : ∀ c ∈ bs, '/' ∉ c) (hnd : FMap.NodupKeys ms) (hwfd : WF md) (hflat : FlatDir ms S)
+    (hfresh : FreshDest md (renderC bs)) (hout : i = j → parentInternal (renderC bs) ≠ S)
+    (hfuel : (ms.keys.filterMap (childName S)).length < fuel) :
+    ∃ w', VPath.copyDirBody fuel { fs := leafFS i, fsId := sid, path := S }
+            { fs := leafFS j, fsId := did, path := renderC bs } w =
+          (.ok (ms.keys.filterMap (childName S)).length, w') ∧
+      FlatDirCopied i j ms md S (renderC bs) w w' := by
+  obtain ⟨se, hse, hsd⟩ := hflat.isDir
+  have hc : md.contains (renderC bs) = false := by simp [FMap.contains, hfresh.absent]
+  have hsame : i = j → ms = md := fun hij => by subst hij; exact hi.unique hj
+  have hj1 := hj.set (md.insert (renderC bs) dirEntryNow)
+  -- leaf `i` after the destination directory has been created
+  obtain ⟨ms1, hi1, hms1, hlist1, hwf1, hnd1⟩ : ∃ ms1,
+      MemLeafAt (w.setLeafFiles j (md.insert (renderC bs) dirEntryNow)) i ms1 ∧
+      (∀ k, ms1.find? k = if i = j ∧ k = renderC bs then some dirEntryNow else ms.find? k) ∧
+      ms1.keys.filterMap (childName S) = ms.keys.filterMap (childName S) ∧
+      (WF ms → WF ms1) ∧ FMap.NodupKeys ms1 := by
+    by_cases hij : i = j
+    · subst hij
+      have := hsame rfl; subst this
+      refine ⟨_, hj1, fun k => by rw [FMap.find?_insert]; simp, ?_, ?_, FMap.nodup_insert _ _ _ hnd⟩
+      · have hcn : childName S (renderC bs) = none := by
+          cases hcc : childName S (renderC bs) with
+          | none => rfl
+          | some n => exact absurd ((childName_iff _ _ _).1 hcc).2.1 (hout rfl)
+        simp [FMap.insert, FMap.keys, FMap.erase_absent ms _ hfresh.absent, hcn]
+      · intro hwf
+        obtain ⟨pe, hpe, hpd⟩ := hfresh.parent
+        exact hwf.insert_dir _ _ rfl hfresh.slash pe hpe hpd
+    · exact ⟨ms, hi.set_ne (Ne.symm hij) _, fun k => by simp [hij], rfl, id, hnd⟩
+  have hse1 : ms1.find? S = some se := by
+    rw [hms1, if_neg]; exact hse
+    rintro ⟨hij, heq⟩
+    rw [hsame hij, heq, hfresh.absent] at hse; cases hse
+  have hsrc1 : ∀ n ∈ ms.keys.filterMap (childName S), ms1.find? (S ++ '/' :: n) = ms.find? (S ++ '/' :: n) := by
+    intro n hn
+    rw [hms1, if_neg]
+    rintro ⟨hij, heq⟩
+    obtain ⟨_, e, he, _⟩ := hflat.files n hn
+    rw [hsame hij, heq, hfresh.absent] at he; cases he
+  have habs : ∀ n, md.find? (renderC bs ++ '/' :: n) = none := by
+    intro n
+    cases hf : md.find? (renderC bs ++ '/' :: n) with
+    | none => rfl
+    | some e' =>
+      by_cases hsl : '/' ∈ n
+      · -- then `renderC bs` would be a proper ancestor, hence present
+        exfalso
+        have hanc : renderC bs ∈ Phys.ancestors (renderC bs ++ '/' :: n) :=
+          prefix_mem_ancestors _ _ (by rw [List.isPrefixOf_iff_prefix]; exact ⟨n, by simp⟩)
+        obtain ⟨e'', he'', _⟩ := hwfd.ancestors_good _ _ (Nat.le_refl _) ⟨e', hf⟩ _ hanc
+        rw [hfresh.absent] at he''; cases he''
+      · exfalso
+        refine hwfd.no_child_of_nondir (renderC bs) (fun e'' he'' => ?_) _ e' hf (by simp)
+          (parent_of_child _ _ hsl)
+        rw [hfresh.absent] at he''; cases he''
+  obtain ⟨w', hrun', hothers', ⟨ms', md', hi', hj', hdst', hsrc', hmdf', hmsf'⟩, hinv'⟩ :=
+    copyItems_flat (i := i) (j := j) sid did S bs hbs (ms.keys.filterMap (childName S)) fuel 0
+      (w.setLeafFiles j (md.insert (renderC bs) dirEntryNow)) ms1 (md.insert (renderC bs) dirEntryNow)
+      hi1 hj1 hfuel (filterMap_childName_nodup ms S hnd) (fun n hn => (hflat.files n hn).1)
+      (fun n hn => by rw [hsrc1 n hn]; exact (hflat.files n hn).2)
+      ⟨dirEntryNow, by simp, rfl⟩
+      (fun n _ => by
+        rw [FMap.find?_insert_ne _ _ _ _ (by
+          intro heq; have := congrArg List.length heq; simp [List.length_append] at this)]
+        exact habs n)
+  refine ⟨w', ?_, ?_, ms', md', hi', hj', ?_, ?_, ?_, ?_, ?_, ?_, ?_⟩
+  · unfold VPath.copyDirBody
+    simp only [bind, M.bind, M.withPath, run_pCreateDir hj, hfresh.pCreateDir, VPath.walkDir,
+      VPath.readDir, run_readDir hi1, Mem.readDir_dir ms1 S se hse1 hsd, hlist1, Res.withPath,
+      pure, M.pure]
+    have hl : (List.map (fun n => VPath.withStr { fs := leafFS i, fsId := sid, path := S } (S ++ '/' :: n))
+        (ms.keys.filterMap (childName S))) =
+        (List.map (fun n => ({ fs := leafFS i, fsId := sid, path := S ++ '/' :: n } : VPath))
+        (ms.keys.filterMap (childName S))) := rfl
+    simp only [hl, hrun', Nat.zero_add]
+  · intro l hl hl'
+    rw [hothers' l hl hl', World.leaf?_setLeafFiles_ne _ _ _ _ (Ne.symm hl')]
+  · rw [hmdf' _ (fun n _ heq => by
+        have := congrArg List.length heq; simp [List.length_append] at this)
+      (fun hij n hn heq => by
+        obtain ⟨_, e, he, _⟩ := hflat.files n hn
+        rw [hsame hij, ← heq, hfresh.absent] at he; cases he)]
+    simp
+  · intro n hn
+    obtain ⟨e, he, hd⟩ := hdst' n hn
+    exact ⟨e, by rw [← hsrc1 n hn]; exact he, hd⟩
+  · intro n hn
+    obtain ⟨e, he, hd⟩ := hsrc' n hn
+    exact ⟨e, by rw [← hsrc1 n hn]; exact he, hd⟩
+  · intro k hk1 hk2 hk3
+    rw [hmdf' k hk2 hk3, FMap.find?_insert_ne _ _ _ _ hk1]
+  · intro k hk1 hk2
+    rw [hmsf' k hk1 (fun hij => (hk2 hij).2), hms1, if_neg (fun ⟨hij, heq⟩ => (hk2 hij).1 heq)]
+  · intro hwf
+    obtain ⟨pe, hpe, hpd⟩ := hfresh.parent
+    exact (hinv' ms' md' hi' hj').1 (hwf1 hwf) (hwfd.insert_dir _ _ rfl hfresh.slash pe hpe hpd)
+  · intro hndd
+    exact (hinv' ms' md' hi' hj').2 hnd1 (FMap.nodup_insert _ _ _ hndd)
+
+theorem copyDir_flat {w : World} {i j : Nat} {ms md : FMap}
+    (hi : MemLeafAt w i ms) (hj : MemLeafAt w j md) (sid did fuel : Nat) (S : Str) (bs : List Str)
+    (hbs : ∀ c ∈ bs, '/' ∉ c) (hnd : FMap.NodupKeys ms) (hwfd : WF md) (hflat : FlatDir ms S)
+    (hfresh : FreshDest md (renderC bs)) (hout : i = j → parentInternal (renderC bs) ≠ S)
+    (hfuel : (ms.keys.filterMap (childName S)).length < fuel) :
+    ∃ w', VPath.copyDir fuel { fs := leafFS i, fsId := sid, path := S }
+            { fs := leafFS j, fsId := did, path := renderC bs } w =
+          (.ok (ms.keys.filterMap (childName S)).length, w') ∧
+      FlatDirCopied i j ms md S (renderC bs) w w' := by
+  obtain ⟨w', hrun, hres⟩ := copyDirBody_flat hi hj sid did fuel S bs hbs hnd hwfd hflat hfresh hout hfuel
+  have hc : md.contains (renderC bs) = false := by simp [FMap.contains, hfresh.absent]
+  refine ⟨w', ?_, hres⟩
+  rw [copyDir_route _ _ _ w (by simp [VPath.exists_, run_exists hj, hc])]
+  simp only [M.withPath, hrun, Res.withPath]
+
+theorem M.bind_assoc {α β γ} (m : M α) (f : α → M β) (g : β → M γ) :
+    M.bind (M.bind m f) g = M.bind m (fun a => M.bind (f a) g) := by
+  funext w
+  unfold M.bind
+  cases h : m w with
+  | mk r w' => cases r <;> rfl
+
+/-- below an absent path of a well-formed map there is nothing -/
+theorem FreshDest.child_absent {m : FMap} {d : Str} (h : FreshDest m d) (hwf : WF m) (n : Str) :
+    m.find? (d ++ '/' :: n) = none := by
+  cases hf : m.find? (d ++ '/' :: n) with
+  | none => rfl
+  | some e' =>
+    exfalso
+    have hanc : d ∈ Phys.ancestors (d ++ '/' :: n) :=
+      prefix_mem_ancestors _ _ (by rw [List.isPrefixOf_iff_prefix]; exact ⟨n, by simp⟩)
+    obtain ⟨e'', he'', _⟩ := hwf.ancestors_good _ _ (Nat.le_refl _) ⟨e', hf⟩ _ hanc
+    rw [h.absent] at he''; cases he''
+
+theorem moveDirBody_eq (fuel : Nat) (src dst : VPath) :
+    src.moveDirBody fuel dst =
+      M.bind (src.copyDirBody fuel dst) (fun _ => VPath.removeDirAll fuel src) := by
+  unfold VPath.moveDirBody VPath.copyDirBody
+  simp only [bind, M.bind_assoc]
+
+/-- a key below `S` whose last component is `n` has its parent below `S` (or is a child of `S`) -/
+theorem under_parent (S D n : Str) (hn : '/' ∉ n) (hne : D ++ '/' :: n ≠ S)
+    (h : under S (D ++ '/' :: n) = true) : under S D = true := by
+  rcases (under_iff _ _).1 h with h | ⟨t, ht⟩
+  · exact absurd h hne
+  · have hp := congrArg parentInternal ht
+    rw [parent_of_child D n hn] at hp
+    by_cases hs : '/' ∈ t
+    · obtain ⟨h1, h2⟩ := split_last '/' t hs
+      have : S ++ '/' :: t = (S ++ '/' :: beforeLast '/' t) ++ '/' :: afterLast '/' t := by
+        conv => lhs; rw [h1]
+        simp
+      rw [this, parent_of_child _ _ h2] at hp
+      exact (under_iff _ _).2 (Or.inr ⟨_, hp⟩)
+    · rw [parent_of_child S t hs] at hp
+      rw [hp]; exact under_self S
+
+/-- What `move_dir S → D` of a flat directory leaves behind: the destination as after `copy_dir`,
+NO key at or below `S`, everything else unchanged. -/
+structure FlatDirMoved (i j : Nat) (ms md : FMap) (S D : Str) (w w' : World) : Prop where
+  others : ∀ l, l ≠ i → l ≠ j → w'.leaf? l = w.leaf? l
+  leaves : ∃ ms' md', MemLeafAt w' i ms' ∧ MemLeafAt w' j md' ∧
+    -- no trace of the source
+    (∀ k, under S k = true → ms'.find? k = none) ∧
+    md'.find? D = some dirEntryNow ∧
+    (∀ n ∈ ms.keys.filterMap (childName S), ∃ e, ms.find? (S ++ '/' :: n) = some e ∧
+      md'.find? (D ++ '/' :: n) = some (copiedEntry e.content)) ∧
+    (∀ k, k ≠ D → (∀ n ∈ ms.keys.filterMap (childName S), k ≠ D ++ '/' :: n) →
+      (i = j → under S k = false) → md'.find? k = md.find? k) ∧
+    (∀ k, under S k = false →
+      (i = j → k ≠ D ∧ ∀ n ∈ ms.keys.filterMap (childName S), k ≠ D ++ '/' :: n) →
+      ms'.find? k = ms.find? k)
+
+theorem moveDir_flat {w : World} {i j : Nat} {ms md : FMap}
+    (hi : MemLeafAt w i ms) (hj : MemLeafAt w j md) (sid did fuel : Nat) (S : Str) (bs : List Str)
+    (hbs : ∀ c ∈ bs, '/' ∉ c) (hnds : FMap.NodupKeys ms) (hndd : FMap.NodupKeys md)
+    (hwfs : WF ms) (hwfd : WF md) (hflat : FlatDir ms S) (hS : S ≠ [])
+    (hfresh : FreshDest md (renderC bs)) (hout : i = j → under S (renderC bs) = false)
+    (hfuel : (ms.keys.filterMap (childName S)).length < fuel)
+    (hb1 : ∀ k e', ms.find? k = some e' → k.length < S.length + fuel)
+    (hb2 : i = j → (renderC bs).length < S.length + fuel ∧
+      ∀ n ∈ ms.keys.filterMap (childName S), (renderC bs ++ '/' :: n).length < S.length + fuel) :
+    ∃ w', VPath.moveDir fuel { fs := leafFS i, fsId := sid, path := S }
+            { fs := leafFS j, fsId := did, path := renderC bs } w = (.ok (), w') ∧
+      FlatDirMoved i j ms md S (renderC bs) w w' := by
+  obtain ⟨se, hse, hsd⟩ := hflat.isDir
+  have hsame : i = j → ms = md := fun hij => by subst hij; exact hi.unique hj
+  have hc : md.contains (renderC bs) = false := by simp [FMap.contains, hfresh.absent]
+  have hout' : i = j → parentInternal (renderC bs) ≠ S := by
+    intro hij hp
+    have := split_last '/' (renderC bs) hfresh.slash
+    unfold parentInternal at hp
+    rw [hp] at this
+    have hu : under S (renderC bs) = true := (under_iff _ _).2 (Or.inr ⟨_, this.1⟩)
+    rw [hout hij] at hu; cases hu
+  have hchild : ∀ n, under S (S ++ '/' :: n) = true := fun n => (under_iff _ _).2 (Or.inr ⟨n, rfl⟩)
+  -- facts for the same-leaf case
+  have F1 : i = j → S ≠ renderC bs := by
+    intro hij heq; rw [hsame hij, heq, hfresh.absent] at hse; cases hse
+  have F2 : i = j → ∀ n, S ≠ renderC bs ++ '/' :: n := by
+    intro hij n heq; rw [hsame hij, heq, hfresh.child_absent hwfd n] at hse; cases hse
+  have F3 : i = j → ∀ n ∈ ms.keys.filterMap (childName S), under S (renderC bs ++ '/' :: n) = false := by
+    intro hij n hn
+    cases hu : under S (renderC bs ++ '/' :: n) with
+    | false => rfl
+    | true =>
+      have := under_parent S (renderC bs) n (hflat.files n hn).1.2.1 (Ne.symm (F2 hij n)) hu
+      rw [hout hij] at this; cases this
+  have notchild : ∀ k, under S k = false → ∀ n ∈ ms.keys.filterMap (childName S), k ≠ S ++ '/' :: n := by
+    intro k hk n _ heq; rw [heq, hchild n] at hk; cases hk
+  obtain ⟨w1, hrun1, hothers1, ms1, md1, hi1, hj1, hD1, hdst1, hsrc1, hmdf1, hmsf1, hwf1, hnd1⟩ :=
+    copyDirBody_flat hi hj sid did fuel S bs hbs hnds hwfd hflat hfresh hout' hfuel
+  have hSu : under S S = true := under_self S
+  -- the source directory is still there
+  have hS1 : ms1.find? S = some se := by
+    rw [hmsf1 S (fun n _ heq => by have := congrArg List.length heq; simp [List.length_append] at this)
+      (fun hij => ⟨F1 hij, fun n _ => F2 hij n⟩)]
+    exact hse
+  have hbound : ∀ k e', ms1.find? k = some e' → k.length < S.length + fuel := by
+    intro k e' hk
+    by_cases h1 : ∃ n ∈ ms.keys.filterMap (childName S), k = S ++ '/' :: n
+    · obtain ⟨n, hn, rfl⟩ := h1
+      obtain ⟨_, e, he, _⟩ := hflat.files n hn
+      exact hb1 _ e he
+    · by_cases hij : i = j
+      · by_cases h2 : k = renderC bs
+        · subst h2; exact (hb2 hij).1
+        · by_cases h3 : ∃ n ∈ ms.keys.filterMap (childName S), k = renderC bs ++ '/' :: n
+          · obtain ⟨n, hn, rfl⟩ := h3; exact (hb2 hij).2 n hn
+          · rw [hmsf1 k (fun n hn heq => h1 ⟨n, hn, heq⟩)
+              (fun _ => ⟨h2, fun n hn heq => h3 ⟨n, hn, heq⟩⟩)] at hk
+            exact hb1 k e' hk
+      · rw [hmsf1 k (fun n hn heq => h1 ⟨n, hn, heq⟩) (fun h => absurd h hij)] at hk
+        exact hb1 k e' hk
+  obtain ⟨ms2, hrun2, _, _, hrem⟩ := rd_all i sid fuel w1 ms1 S se hi1 (hwf1 hwfs).1 (hnd1 hndd).1
+    hS hS1 hsd hbound
+  refine ⟨w1.setLeafFiles i ms2, ?_, ?_, ?_⟩
+  · rw [moveDir_route _ _ _ w (by simp [VPath.exists_, run_exists hj, hc])
+      (fun _ => ⟨none, run_moveDir_mem hi _ _⟩), moveDirBody_eq]
+    simp only [M.withPath, M.bind, hrun1, hrun2, Res.withPath]
+  · intro l hl hl'
+    rw [World.leaf?_setLeafFiles_ne _ _ _ _ (Ne.symm hl), hothers1 l hl hl']
+  · by_cases hij : i = j
+    · subst hij
+      have e1 := hi1.unique hj1
+      subst e1
+      have e2 := hsame rfl
+      subst e2
+      refine ⟨ms2, ms2, hi1.set ms2, hi1.set ms2, ?_, ?_, ?_, ?_, ?_⟩
+      · intro k hk; rw [hrem k, hk]; rfl
+      · rw [hrem, hout rfl]; exact hD1
+      · intro n hn
+        obtain ⟨e, he, hd⟩ := hdst1 n hn
+        exact ⟨e, he, by rw [hrem, F3 rfl n hn]; exact hd⟩
+      · intro k hk1 hk2 hk3
+        rw [hrem, hk3 rfl]
+        exact hmdf1 k hk1 hk2 (fun _ => notchild k (hk3 rfl))
+      · intro k hk1 hk2
+        rw [hrem, hk1]
+        exact hmsf1 k (notchild k hk1) hk2
+    · refine ⟨ms2, md1, hi1.set ms2, hj1.set_ne hij ms2, ?_, hD1, hdst1, ?_, ?_⟩
+      · intro k hk; rw [hrem k, hk]; rfl
+      · intro k hk1 hk2 _
+        exact hmdf1 k hk1 hk2 (fun h => absurd h hij)
+      · intro k hk1 _
+        rw [hrem, hk1]
+        exact hmsf1 k (notchild k hk1) (fun h => absurd h hij)
+
+/-- in a well-formed map the shorter prefixes of a present path are existing directories -/
+theorem WF.chain_dirs {m : FMap} (hwf : WF m) (a : List Str) (c : Str) (e : Entry)
+    (hq : m.find? (renderC (a ++ [c])) = some e) :
+    ∀ q' ∈ chain a, q' ≠ [] ∧ ∃ e', m.find? q' = some e' ∧ e'.ftype = .dir := by
+  intro q' hq'
+  obtain ⟨k, hk, rfl⟩ := (mem_chain a q').1 hq'
+  have hsplit : renderC (a ++ [c]) = renderC (a.take (k + 1)) ++ renderC (a.drop (k + 1) ++ [c]) := by
+    rw [← renderC_append, ← List.append_assoc, List.take_append_drop]
+  have hne : a.take (k + 1) ≠ [] := by
+    cases a with
+    | nil => simp at hk
+    | cons x xs => simp
+  constructor
+  · cases htk : a.take (k + 1) with
+    | nil => exact absurd htk hne
+    | cons x xs => simp
+  · have hpre : (renderC (a.take (k + 1)) ++ ['/']).isPrefixOf (renderC (a ++ [c])) = true := by
+      rw [List.isPrefixOf_iff_prefix, hsplit]
+      cases hd : a.drop (k + 1) ++ [c] with
+      | nil => simp at hd
+      | cons x xs => exact ⟨x ++ renderC xs, by simp⟩
+    exact hwf.ancestors_good _ _ (Nat.le_refl _) ⟨e, hq⟩ _ (prefix_mem_ancestors _ _ hpre)
+
+/-- (c) on a well-formed map: a file among the prefixes stops `create_dir_all` with
+`FileExists(that prefix)` and NOTHING has changed, because the shorter prefixes all exist -/
+theorem createDirAllLoop_file_wf (m : FMap) (hm : WF m) (a b : List Str) (c : Str) (e : Entry)
+    (hsl : ∀ x ∈ a ++ [c], '/' ∉ x)
+    (hfile : m.find? (renderC (a ++ [c])) = some e) (hft : e.ftype = .file) :
+    Mem.createDirAllLoop m (chain (a ++ c :: b)) =
+      (.err .fileExists (some (renderC (a ++ [c]))), m) := by
+  have hdirs := hm.chain_dirs a c e hfile
+  have := (createDirAllLoop_file m hm a b c e hsl
+    (fun q hq e' he' => by
+      obtain ⟨_, e'', he'', hd⟩ := hdirs q hq
+      rw [he'] at he''; injection he'' with he''; subst he''; exact hd) hfile hft).1
+  rw [this, createDirAllLoop_existing m hm (chain a) hdirs]
+
+/-! ### 7. evaluation helpers for the concrete examples -/
+
+/-- the children loop with the recursive call abstracted (structural recursion on the list) -/
+def rmChildrenWith (rec : VPath → M Unit) : List VPath → M Unit
+  | [] => pure ()
+  | c :: rest => do
+    let md ← c.metadata
+    match md.ftype with
+    | .file => c.removeFile
+    | .dir => rec c
+    rmChildrenWith rec rest
+
+/-- `remove_dir_all` by structural recursion on the fuel: the kernel can evaluate this one -/
+def rmAll : Nat → VPath → M Unit
+  | 0, _ => M.ret .panic
+  | fuel + 1, p => do
+    if !(← p.exists_) then pure ()
+    else
+      let children ← p.readDir
+      rmChildrenWith (rmAll fuel) children
+      p.removeDir
+
+theorem rmChildrenWith_eq (fuel : Nat) (h : ∀ p, rmAll fuel p = VPath.removeDirAll fuel p) :
+    ∀ l, rmChildrenWith (rmAll fuel) l = VPath.removeChildren fuel l := by
+  intro l
+  induction l with
+  | nil => rw [VPath.removeChildren.eq_1]; rfl
+  | cons c rest ih =>
+    rw [VPath.removeChildren.eq_2, rmChildrenWith, ih, h c]
+    rfl
+
+theorem rmAll_eq : ∀ fuel p, rmAll fuel p = VPath.removeDirAll fuel p := by
+  intro fuel
+  induction fuel with
+  | zero => intro p; rw [VPath.removeDirAll.eq_1]; rfl
+  | succ fuel ih =>
+    intro p
+    rw [VPath.removeDirAll.eq_2, rmAll]
+    have := rmChildrenWith_eq fuel ih
+    simp only [this]
+
+/-- `e` is a directory entry, as a Boolean -/
+def isDirOpt : Option Entry → Bool
+  | some e => decide (e.ftype = .dir)
+  | none => false
+
+/-- executable well-formedness check of a concrete map -/
+def wfCheck (m : FMap) : Bool :=
+  isDirOpt (m.find? []) &&
+    m.keys.all (fun k => decide (k = []) || (decide ('/' ∈ k) && isDirOpt (m.find? (parentInternal k))))
+
+theorem isDirOpt_spec (o : Option Entry) (h : isDirOpt o = true) : ∃ e, o = some e ∧ e.ftype = .dir := by
+  cases o with
+  | none => cases h
+  | some e => exact ⟨e, rfl, by simpa [isDirOpt] using h⟩
+
+theorem WF.of_check (m : FMap) (h : wfCheck m = true) : WF m := by
+  unfold wfCheck at h
+  rw [Bool.and_eq_true] at h
+  refine ⟨isDirOpt_spec _ h.1, ?_⟩
+  intro k e hk hne
+  have hmem : k ∈ m.keys := (FMap.mem_keys_iff m k).2 ⟨e, hk⟩
+  have := List.all_eq_true.1 h.2 k hmem
+  simp only [Bool.or_eq_true, decide_eq_true_eq, Bool.and_eq_true] at this
+  rcases this with h0 | ⟨h1, h2⟩
+  · exact absurd h0 hne
+  · exact ⟨h1, isDirOpt_spec _ h2⟩
+
+/-- all keys are shorter than `n` -/
+theorem keys_bound (m : FMap) (n : Nat) (h : m.keys.all (fun k => decide (k.length < n)) = true) :
+    ∀ k e, m.find? k = some e → k.length < n := by
+  intro k e hk
+  have hmem : k ∈ m.keys := (FMap.mem_keys_iff m k).2 ⟨e, hk⟩
+  simpa using List.all_eq_true.1 h k hmem
 
 end Vfs
